@@ -306,6 +306,15 @@ func TestVerif_C13(t *testing.T) {
 				return
 			}
 			c := &crypto.CosiSignature{Signature: sig, Mask: m}
+			if tampers%2 == 0 {
+				// the same value object that just verified the honest signature is filled again with the tampered
+				// fields (as decoding into a reused value does): the verdict must not depend on the object's history
+				c = &crypto.CosiSignature{Signature: honest.Signature, Mask: honest.Mask}
+				_ = c.FullVerify(publics, 1, msg)
+				_ = c.Keys()
+				c.Signature, c.Mask = sig, m
+				kind += "|reused-value"
+			}
 			var err error
 			panicked, val, stack := verifkit.Guard(func() { err = c.FullVerify(pubs, th, message) })
 			if panicked {
